@@ -5,7 +5,7 @@
    labels: which thread moves, which ready select case is taken, when the context
    ends); [run] skips labels that are not enabled. *)
 From Coq Require Import List ZArith Bool Arith Permutation.
-From GZ Require Import C10.Model C10.Proofs C10.ProofsT C10.ProofsQ.
+From GZ Require Import C10.Model C10.Proofs C10.ProofsT C10.ProofsQ C10.ProofsM C10.ProofsS.
 Import ListNotations.
 
 (* At most [workers] mapper functions run at any time (and the pool never holds more
@@ -160,6 +160,81 @@ Theorem quit_closed_after_commit : forall c sched,
 Proof. intros c sched V. exact (inv_quit_all c sched V). Qed.
 Print Assumptions quit_closed_after_commit.
 
+(* ---- provenance: results in terms of the user scripts alone ---- *)
+(* every error logged by a cancel call that entered the once body is the context error (and the
+   context has ended) or was passed to cancel by an action of the reducer script or of the mapper
+   script of an item that the generator sent and that was handed to a mapper invocation *)
+Theorem cancels_from_scripts : forall c sched e,
+  let s := run c (init c) sched in
+  In e (g_cancels s) ->
+  (e = ECtx /\ ctx_done s = true) \/ exists e', e = err_of e' /\ script_cancels c s e'.
+Proof. exact cancels_from_scripts_l. Qed.
+Print Assumptions cancels_from_scripts.
+
+(* every panic raised is panic(k) of an action of the generator script, the reducer script or the
+   mapper script of a generated, mapped item *)
+Theorem panics_from_scripts : forall c sched p,
+  let s := run c (init c) sched in
+  In p (g_panics s) -> exists k, p = PUser k /\ script_panics c s k.
+Proof. exact panics_from_scripts_l. Qed.
+Print Assumptions panics_from_scripts.
+
+(* result_is_reducers_or_fault with the ghost logs eliminated: what the call returns is determined
+   by actions that occur in the user scripts; the runtime panic only under the unrepaired output
+   protocol (finding F13) *)
+Theorem result_from_scripts : forall c sched o,
+  let s := run c (init c) sched in
+  result s = Some o ->
+  match o with
+  | OVal v => In (UWrite v) (rscript c)
+  | ONoOutput => foreach c = false
+  | OUnit => foreach c = true
+  | OErr e => (e = ECtx /\ ctx_done s = true) \/ exists e', e = err_of e' /\ script_cancels c s e'
+  | OPanic p => p = PMulti \/ (p = PClosed /\ safe_out c = false)
+                \/ exists k, p = PUser k /\ script_panics c s k
+  end.
+Proof. exact result_from_scripts_l. Qed.
+Print Assumptions result_from_scripts.
+
+(* the repaired output protocol (output never closed, Write selects on done:
+   pending/C10-output-never-closed.diff) never re-raises the runtime's send-on-closed-channel
+   panic, under any schedule; the unrepaired one does (Pinned.cancel_racing_reducer_write_...) *)
+Theorem safe_no_runtime_panic : forall c sched, safe_out c = true ->
+  result (run c (init c) sched) <> Some (OPanic PClosed).
+Proof. exact safe_no_runtime_panic_l. Qed.
+Print Assumptions safe_no_runtime_panic.
+
+(* ---- termination ---- *)
+(* every step of every thread, and the context event, strictly decreases [measure] (any variant,
+   any scripts) *)
+Theorem every_step_decreases_measure : forall c s l s',
+  step c s l = Some s' -> measure c s' < measure c s.
+Proof. exact step_decreases. Qed.
+Print Assumptions every_step_decreases_measure.
+
+(* every run is finite: whatever the schedule, at most [measure c (init c)] of its labels are
+   executed *)
+Theorem every_run_is_finite : forall c sched, nsteps c (init c) sched <= measure c (init c).
+Proof. intros c sched. pose proof (run_bounded c sched (init c)). apply (Nat.le_trans _ _ _ (Nat.le_add_r _ _) H). Qed.
+Print Assumptions every_run_is_finite.
+
+(* no reachable deadlock: every reachable state of the repaired panicChan protocol (either output
+   protocol) has a continuation ending in a state in which no thread can move, the caller has
+   returned and every goroutine has ended — for all scripts, i.e. all fault placements *)
+Theorem no_reachable_deadlock : forall c sched,
+  variant_of c = VFixed -> 1 <= workers c -> length (all_writes (rscript c)) <= 2 ->
+  exists more, let s := run c (init c) (sched ++ more) in stuck c s = true /\ clean s = true.
+Proof. exact no_reachable_deadlock_l. Qed.
+Print Assumptions no_reachable_deadlock.
+
+(* every fair infinite schedule (one that offers every thread label again and again; the context
+   may or may not end) reaches such a state after finitely many labels *)
+Theorem fair_schedule_terminates : forall c f,
+  variant_of c = VFixed -> 1 <= workers c -> length (all_writes (rscript c)) <= 2 -> fair f ->
+  exists N, let s := run c (init c) (prefix f N) in stuck c s = true /\ clean s = true.
+Proof. exact fair_schedule_terminates_l. Qed.
+Print Assumptions fair_schedule_terminates.
+
 (* non-vacuity: a concrete run with 3 items, 2 workers, fan-out 2 in which a mapper
    cancels and another panics later; the hypotheses are met and the run ends clean *)
 Open Scope Z_scope.
@@ -208,3 +283,72 @@ Proof.
   - intro H. vm_compute in H. repeat (destruct H as [H|H]; [discriminate|]). exact H.
   - vm_compute. repeat split; reflexivity.
 Qed.
+
+(* the same under the repaired output protocol *)
+Definition ex_cfg_safe : config :=
+  mkCfg VFixed false 2%nat (gscript ex_cfg) (mscript ex_cfg) (rscript ex_cfg) true.
+Example ex_run_safe :
+  let s := run ex_cfg_safe (init ex_cfg_safe) ex_sched in
+  result s = Some (OErr (ECancel 7)) /\ clean s = true /\ stuck ex_cfg_safe s = true
+  /\ script_cancels ex_cfg_safe s (Some 7) /\ nsteps ex_cfg_safe (init ex_cfg_safe) ex_sched = 48%nat
+  /\ measure ex_cfg_safe (init ex_cfg_safe) = 89%nat.
+Proof.
+  vm_compute. repeat split; try reflexivity.
+  right. exists 2. repeat split; simpl; auto.
+Qed.
+
+(* a fair schedule: six fixed labels in turn, and in every seventh position LMap i where i runs
+   through b - (sqrt b)^2, which takes every value again and again *)
+Definition fair_f (n : nat) : label :=
+  match (n mod 7)%nat with
+  | 0%nat => LMain BCtx | 1%nat => LMain BPanic | 2%nat => LMain BOut | 3%nat => LGen
+  | 4%nat => LExec true | 5%nat => LExec false
+  | _ => let b := (n / 7)%nat in
+         if Nat.even b then LRed else LMap ((b / 2) - Nat.sqrt (b / 2) * Nat.sqrt (b / 2))
+  end.
+
+Example fair_f_fair : fair fair_f.
+Proof.
+  intros l NL n.
+  assert (forall r, (r < 6)%nat -> exists m, (n <= m)%nat /\ (m mod 7 = r)%nat) as Fix.
+  { intros r Hr. exists (7 * n + r)%nat. split; [Lia.lia|].
+    rewrite Nat.mul_comm, Nat.add_comm, Nat.mod_add by Lia.lia. apply Nat.mod_small. Lia.lia. }
+  assert (forall b, (n <= b)%nat -> exists m, (n <= m)%nat /\ (m mod 7 = 6)%nat /\ (m / 7 = b)%nat) as Sev.
+  { intros b Hb. exists (b * 7 + 6)%nat. split; [Lia.lia|]. split.
+    - rewrite Nat.add_comm, Nat.mod_add by Lia.lia. reflexivity.
+    - rewrite Nat.add_comm, Nat.div_add by Lia.lia. reflexivity. }
+  destruct l as [|b| |q|i|]; try congruence.
+  - destruct b.
+    + destruct (Fix 0%nat) as (m & A & B); [Lia.lia|]. exists m. split; auto. unfold fair_f. rewrite B. reflexivity.
+    + destruct (Fix 1%nat) as (m & A & B); [Lia.lia|]. exists m. split; auto. unfold fair_f. rewrite B. reflexivity.
+    + destruct (Fix 2%nat) as (m & A & B); [Lia.lia|]. exists m. split; auto. unfold fair_f. rewrite B. reflexivity.
+  - destruct (Fix 3%nat) as (m & A & B); [Lia.lia|]. exists m. split; auto. unfold fair_f. rewrite B. reflexivity.
+  - destruct q.
+    + destruct (Fix 4%nat) as (m & A & B); [Lia.lia|]. exists m. split; auto. unfold fair_f. rewrite B. reflexivity.
+    + destruct (Fix 5%nat) as (m & A & B); [Lia.lia|]. exists m. split; auto. unfold fair_f. rewrite B. reflexivity.
+  - (* LMap i: b = 2 * (k * k + i) + 1 with k >= i, k >= n *)
+    set (k := (n + i)%nat). set (h := (k * k + i)%nat).
+    destruct (Sev (2 * h + 1)%nat) as (m & A & B & D); [unfold h, k; Lia.nia|].
+    exists m. split; auto. unfold fair_f. rewrite B, D.
+    assert (Nat.even (2 * h + 1) = false) as Ev.
+    { rewrite Nat.add_comm. rewrite Nat.even_add_mul_2. reflexivity. }
+    rewrite Ev.
+    assert (((2 * h + 1) / 2)%nat = h) as Hh.
+    { rewrite Nat.mul_comm, Nat.div_add_l by Lia.lia. simpl. Lia.lia. }
+    rewrite Hh.
+    assert (Nat.sqrt h = k) as Sq.
+    { apply Nat.sqrt_unique. unfold h, k. split; Lia.nia. }
+    rewrite Sq. unfold h. f_equal. Lia.lia.
+  - (* LRed: an even b *)
+    destruct (Sev (2 * n)%nat) as (m & A & B & D); [Lia.lia|].
+    exists m. split; auto. unfold fair_f. rewrite B, D.
+    assert (Nat.even (2 * n) = true) as Ev.
+    { replace (2 * n)%nat with (0 + 2 * n)%nat by Lia.lia. rewrite Nat.even_add_mul_2. reflexivity. }
+    rewrite Ev. reflexivity.
+Qed.
+
+(* ... and it drives the example configuration into a clean terminal state *)
+Example fair_f_finishes :
+  let s := run ex_cfg_safe (init ex_cfg_safe) (prefix fair_f 4000) in
+  stuck ex_cfg_safe s = true /\ clean s = true.
+Proof. vm_compute. split; reflexivity. Qed.
